@@ -123,7 +123,8 @@ def f_amend(version="inp", extra="static", order="amend_first"):
             am["out"] = ["side.txt"]
         acts = [["amend", am], ["read", "extra.txt"]]
         if order == "read_first":
-            acts = [["read", "extra.txt"], ["amend", am]]
+            # a script that copes with a missing file, announces it afterwards and reads again
+            acts = [["tryread", "extra.txt"], ["amend", am], ["read", "extra.txt"]]
         w = [*acts, ["write", "w.out", ["extra.txt"]]]
         if version == "inp_out":
             w.append(["write", "side.txt", []])
@@ -170,3 +171,77 @@ def f_selfprod(sub=1):
     sub_prog = [["step", "cp inp.txt o.txt", {"inp": ["inp.txt"], "out": ["o.txt"]}],
                 ["amend", {"inp": ["o.txt"]}]]
     return {"plan.py": script(root), "sub.py": script(sub_prog), "inp.txt": "inp\n"}
+
+
+# -- F-hold ------------------------------------------------------------------------------------
+
+def f_hold(nesting=2, fail=0, outside=1, v=1, sub=0, durations=(1.0, 1.0, 1.0)):
+    d1, d2, d3 = durations
+    inner = [tr("H1", [], ["h1.txt"], duration=d1)]
+    if nesting >= 2:
+        inner.append(["hold", [tr("H2", [], ["h2.txt"], duration=d2)]])
+    inner.append(tr("H3", ["h1.txt"], ["h3.txt"], duration=d3))
+    if fail:
+        inner.append(["exit", 1])
+    prog = [["hold", inner]]
+    if outside:
+        prog.append(tr("H4", [], ["h4.txt"]))
+    if sub:
+        return {
+            "plan.py": script([["static", "sub.py"], ["plan", "./sub.py"], tr("T", [], ["t.txt"])], v=v),
+            "sub.py": script(prog, v=v),
+        }
+    return {"plan.py": script(prog, v=v)}
+
+
+def f_resmix(demands, durations=None):
+    prog = []
+    for i, dem in enumerate(demands):
+        res = {}
+        for part in dem.split(",") if dem else []:
+            name, units = part.split(":")
+            res[name] = int(units)
+        kw = {"resources": res}
+        if durations:
+            kw["duration"] = durations[i]
+        prog.append(tr(f"R{i}", [], [f"r{i}.txt"], **kw))
+    return {"plan.py": script(prog)}
+
+
+# -- F-prodcons (C03) --------------------------------------------------------------------------
+
+def f_prodcons(consumer="amend_first", producer_by="plan", declared=0, tree=0):
+    """P writes o.txt in two actions from src.txt; C uses o.txt (amended or declared)."""
+    p_prog = [["write_partial", "o.txt"], ["write", "o.txt", ["src.txt"]]]
+    if consumer == "amend_first":
+        c_prog = [["amend", {"inp": ["o.txt"]}], ["read", "o.txt"], ["write", "c.out", ["o.txt"]]]
+    elif consumer == "read_first":
+        c_prog = [["tryread", "o.txt"], ["amend", {"inp": ["o.txt"]}], ["read", "o.txt"],
+                  ["write", "c.out", ["o.txt"]]]
+    else:
+        c_prog = [["read", "o.txt"], ["write", "c.out", ["o.txt"]]]
+    files = {"src.txt": "src\n", "p.py": script(p_prog), "c.py": script(c_prog)}
+    p_step = ["run", "./p.py", {"inp": ["src.txt"], "out": ["o.txt"]}]
+    c_kw = {"out": ["c.out"]}
+    if declared:
+        c_kw["inp"] = ["o.txt"]
+    c_step = ["run", "./c.py", c_kw]
+    if producer_by == "plan":
+        root = [["static", "src.txt", "p.py", "c.py"], c_step, p_step]
+    else:
+        root = [["static", "src.txt", "p.py", "c.py", "plan2.py"], c_step, ["plan", "./plan2.py"]]
+        files["plan2.py"] = script([p_step])
+    files["plan.py"] = script(root)
+    return files
+
+
+def f_treeamend():
+    """C amends a file under a static tree (UNCONFIRMED path, promoted hash jobs)."""
+    return {
+        "plan.py": script([["static", "c.py", "c2.py", "t/"],
+                           ["run", "./c.py", {"out": ["c.out"]}],
+                           ["run", "./c2.py", {"out": ["c2.out"]}]]),
+        "c.py": script([["amend", {"inp": ["t/x.txt"]}], ["read", "t/x.txt"], ["write", "c.out", ["t/x.txt"]]]),
+        "c2.py": script([["amend", {"inp": ["t/x.txt", "t/none.txt"]}], ["write", "c2.out", []]]),
+        "t/x.txt": "x\n",
+    }
